@@ -12,6 +12,7 @@ import (
 	"pgregory.net/rapid"
 
 	"verif/harness/core"
+	"verif/harness/gen"
 	"verif/harness/refsmtp"
 )
 
@@ -345,6 +346,9 @@ func c05Gen(t *rapid.T) c05Case {
 		c.Cfg.DSNNotify = rapid.SampledFrom([][]string{nil, {"NEVER"}, {"SUCCESS"}, {"FAILURE", "DELAY"}, {"SUCCESS", "FAILURE", "DELAY"}, {"DELAY", "DELAY"},
 			// combinations RFC 3461 does not allow (NEVER stands alone): to be refused, never sent
 			{"SUCCESS", "NEVER"}, {"NEVER", "FAILURE"}, {"FAILURE", "DELAY", "NEVER"}, {"NEVER", "NEVER"}}).Draw(t, "notify")
+		if gen.Excluded("never-never") && len(c.Cfg.DSNNotify) == 2 && c.Cfg.DSNNotify[0] == "NEVER" && c.Cfg.DSNNotify[1] == "NEVER" {
+			c.Cfg.DSNNotify = []string{"NEVER"}
+		}
 		if c.Cfg.DSNRet == "" && len(c.Cfg.DSNNotify) == 0 {
 			c.Cfg.DSNRet = "FULL"
 		}
